@@ -8,6 +8,11 @@ CHECKS = {
    text="Machine-checked theorems (success_spec, exhaust_raises, raise_spec, run_total, forced_spec) about an executable model of the adaptive sub-increment loop, for every subdivision limit, both modes and every failure pattern; the model is tied to PythonTubeSolver.solve by running the real loop on real Tube/State objects in 1D/2D/3D over the complete decision tree of failure patterns (max_divide 1..4) and comparing traces exactly; the property predicate is also evaluated on every real trace.",
    note="Trusted: Lean kernel + Mathlib with axioms propext/Classical.choice/Quot.sound; the recorder that replaces solve_python_1d/2d/3d; what a converged increment computes is outside this property.",
    design="4/C10"),
+ "C02": dict(
+   technique="Lean 4 proof (telescoping sums over the conservative stencil, all grid sizes/dimensions) + correspondence of the assembled step system with the real solve_step",
+   text="Theorems about an executable model of the linear system of one implicit step (1D/2D/3D, any nr/nt/nz, any dt, lagged coefficients, every wall kind): radial/circumferential/axial telescoping, step_balance (stored-heat change = dt x net wall-face flux + source), wall contribution per kind, flux_sign on both walls, area_defect (dr/2 offset of the wall half-cell radii), insulated_exact. The model is tied to srlife by capturing the matrix and right-hand side the real solve_step hands to its sparse solver and comparing them entry by entry; the identities are also evaluated with an independent numpy formula on real multi-step solves.",
+   note="Trusted: Lean kernel + Mathlib (propext/Classical.choice/Quot.sound); harness capture at scipy spsolve; Float vs real arithmetic (compared at 1e-11); theorems speak of exact solutions, real solves meet them to the Newton tolerance. Known finding F17 (thick coarse tubes) is outside hypothesis 0 < r_{1/2}.",
+   design="4/C02"),
 }
 PENDING_REASON = "check not built yet in this round (work in progress; see DESIGN.md section 4 for the planned model and theorems) — not claimed"
 
